@@ -162,6 +162,12 @@ theorem putETomb_part (t : ETomb) (l : List ETomb) (k : Key) (h : k ≠ xKey t) 
   · rw [part_append, part_single_ne _ _ (fun z => h z.symm), List.append_nil]
 
 
+theorem foldl_preserves' {α β : Type} (P : β → Prop) (l : List α) (f : β → α → β) (b : β) (hb : P b)
+    (hf : ∀ b a, P b → P (f b a)) : P (l.foldl f b) := by
+  induction l generalizing b with
+  | nil => exact hb
+  | cons a t ih => exact ih (f b a) (hf b a hb)
+
 /-! ### marks cover the change -/
 
 /-- every `(room, entity, day)` whose stored signatures differ between `r` and `r'` is in `marks` -/
@@ -300,6 +306,15 @@ theorem winv_step {r r' : Replica} {marks : List Key} (h : WInv r.sigs noPending
   intro room ent day hne
   exact Or.inr (hc room ent day hne)
 
+/-- the same when the write stores its marks itself -/
+theorem winv_step' {r r' : Replica} {marks : List Key} (h : WInv r.sigs noPending r.log) (hc : Covers r r' marks)
+    (hl : r'.log = markAll marks r.log) : WInv r'.sigs noPending r'.log := by
+  rw [hl]
+  apply WInv_markAll
+  refine WInv_write h (fun _ _ _ x => absurd x (fun z => z)) ?_
+  intro room ent day hne
+  exact Or.inr (hc room ent day hne)
+
 theorem effectOf_log (d : Defects) (w : World) (cur : Replica) (p : Nat) (op : WOp) :
     (effectOf d w cur cur p op).cur.log = cur.log := by
   cases op with
@@ -322,8 +337,7 @@ theorem effectOf_log (d : Defects) (w : World) (cur : Replica) (p : Nat) (op : W
     simp only [effectOf, opUnref]
     split
     · rfl
-    · simp only
-      split
+    · split
       · rfl
       · split <;> rfl
   | del row dsig =>
@@ -345,5 +359,119 @@ theorem effectOf_winv {d : Defects} (hd : d.refDeletionUnmarked = false) (w : Wo
   | ref row to sig => exact opRef_covers hn w.rights p row to sig w.now
   | unref row to sig dsig => exact opUnref_covers hn hd w.rights p row to sig dsig w.now
   | del row dsig => exact opDel_covers hn w.rights p row _ dsig w.now
+
+
+/-! ### synchronised rows and deletion records -/
+
+theorem findId_some {r : Replica} {id : Nat} {n : Node} (h : r.findId id = some n) : n ∈ r.nodes ∧ n.id = id := by
+  unfold Replica.findId at h
+  have := List.find?_some h
+  simp only [decide_eq_true_eq] at this
+  exact ⟨List.mem_of_find?_eq_some h, this⟩
+
+theorem findId_none {r : Replica} {id : Nat} (h : r.findId id = none) : ∀ x ∈ r.nodes, x.id ≠ id := by
+  unfold Replica.findId at h
+  intro x hx e
+  have := List.find?_eq_none.mp h x hx
+  simp [e] at this
+
+theorem putNode_covers {r : Replica} (hn : IdsNodup r) (n : Node) (l : Option Node) (hl : r.findId n.id = l) :
+    ∀ k, k ≠ nKey n → (∀ o, l = some o → k ≠ nKey o) →
+      part nKey (·.sig) (putNode n r.nodes) k = part nKey (·.sig) r.nodes k := by
+  intro k h1 h2
+  unfold putNode
+  cases l with
+  | none =>
+    have hno := findId_none hl
+    have : r.nodes.any (fun x => x.id = n.id) = false := by
+      rw [List.any_eq_false]; intro x hx; simpa using hno x hx
+    simp only [this, Bool.false_eq_true, ↓reduceIte]
+    rw [part_append, part_single_ne _ _ (fun z => h1 z.symm), List.append_nil]
+  | some o =>
+    obtain ⟨hm, hid⟩ := findId_some hl
+    have : r.nodes.any (fun x => x.id = n.id) = true :=
+      List.any_eq_true.mpr ⟨o, hm, by simp [hid]⟩
+    simp only [this, ↓reduceIte]
+    exact replace_part hn hm n hid.symm k (h2 o rfl) h1
+
+/-- **a synchronised row keeps the invariant** (intended marks: the day of the row and the day of the version it
+    replaces), `old` being the version stored locally -/
+theorem ingestNode_winv {d : Defects} (hd : d.oldDayUnmarked = false) (rights : List Bool) {r : Replica}
+    (hn : IdsNodup r) (h : WInv r.sigs noPending r.log) (n : Node) (old : Option Node)
+    (ho : r.findId n.id = old) (hent : ∀ o, old = some o → o.ent = n.ent) :
+    WInv (ingestNode d rights r n old).sigs noPending (ingestNode d rights r n old).log := by
+  unfold ingestNode
+  split
+  · have hc : Covers r { r with nodes := putNode n r.nodes } (kNode n.room n.ent n.mdate :: ingestOldMarks d n old) := by
+      apply covers_of_parts
+      intro k hk
+      simp only [List.mem_cons, not_or] at hk
+      refine ⟨rfl, rfl, ?_⟩
+      refine putNode_covers hn n old ho k (fun e => hk.1 (by rw [e]; rfl)) ?_
+      intro o ho' e
+      apply hk.2
+      subst ho'
+      simp only [ingestOldMarks]
+      split
+      · rw [e]; simp [nKey, kNode, hent o rfl]
+      · simp only [hd, Bool.false_eq_true, ↓reduceIte, List.mem_singleton]; rw [e]; rfl
+    exact winv_step' h hc rfl
+  · exact h
+
+theorem ingestNode_idsNodup {d : Defects} (rights : List Bool) {r : Replica} (hn : IdsNodup r) (n : Node)
+    (old : Option Node) : IdsNodup (ingestNode d rights r n old) := by
+  unfold ingestNode
+  split
+  · unfold IdsNodup putNode
+    simp only
+    split
+    · have : (replaceNode n r.nodes).map (·.id) = r.nodes.map (·.id) := by
+        unfold replaceNode
+        rw [List.map_map]
+        apply List.map_congr_left
+        intro x _
+        simp only [Function.comp]
+        split
+        · rename_i e; exact e.symm
+        · rfl
+      rw [this]; exact hn
+    · rename_i hany
+      rw [List.map_append, List.nodup_append]
+      refine ⟨hn, by simp, ?_⟩
+      intro a ha b hb
+      simp only [List.map_cons, List.map_nil, List.mem_singleton] at hb
+      subst hb
+      intro e
+      obtain ⟨x, hx, hxe⟩ := List.mem_map.mp ha
+      apply hany
+      exact List.any_eq_true.mpr ⟨x, hx, by simp [hxe, e]⟩
+  · exact hn
+
+/-- **a synchronised deletion record keeps the invariant** (intended: every version it removes has its day marked) -/
+theorem applyNTombs_winv {d : Defects} (h1 : d.syncDeletionLocalDayUnmarked = false)
+    (rights : List Bool) {dst : Replica} (h : WInv dst.sigs noPending dst.log) (ts : List NTomb) :
+    WInv (applyNTombs d rights dst ts).sigs noPending (applyNTombs d rights dst ts).log := by
+  unfold applyNTombs
+  refine foldl_preserves' (fun r : Replica => WInv r.sigs noPending r.log) _ _ _ h ?_
+  intro r t hr
+  unfold applyNTomb
+  simp only [h1, Bool.false_eq_true, ↓reduceIte]
+  refine winv_step' (r := r) (marks := [kNode t.room t.ent t.ddate, kNode t.room t.ent t.mdate] ++
+    (r.nodes.filter fun n => n.id = t.id && (!d.syncDeletionRoomScoped || n.room = t.room)).map
+      fun n => kNode n.room n.ent n.mdate) hr ?_ rfl
+  apply covers_of_parts
+  intro k hk
+  simp only [List.mem_append, List.mem_cons, List.not_mem_nil, or_false, not_or] at hk
+  refine ⟨?_, rfl, ?_⟩
+  · apply putNTomb_part
+    intro e; apply hk.1.1; rw [e]; rfl
+  · apply part_filter
+    intro x hx hp
+    intro e
+    apply hk.2
+    refine List.mem_map.mpr ⟨x, List.mem_filter.mpr ⟨hx, ?_⟩, by rw [← e]; rfl⟩
+    cases hb : (decide (x.id = t.id) && (!d.syncDeletionRoomScoped || decide (x.room = t.room))) with
+    | true => rfl
+    | false => simp [hb] at hp
 
 end Discret.Sync
